@@ -1,18 +1,574 @@
 (* C14 -- Malformed input is rejected only through the documented exception family.
-   One theorem per modelled entry point: for EVERY input the exception-faithful model returns a
-   value or an error of the family (ValueError and subclasses, or a library error class).
-   Entry points not listed here are covered by the differential fuzz of harness/props/C14.py only. *)
-From Coq Require Import NArith List.
+
+   One theorem per modelled entry point: for EVERY input the exception-faithful model returns a value or an error
+   of the family (ValueError and subclasses, or a library error class): [in_family (f x) = true].
+   Statements only; proofs are [exact <lemma>] from Lemmas/NoEscape*.v.
+
+   Reading guide.
+   * Hashes, KDFs, AES, group operations, third-party acceptance tests and Unicode normalisation are universally
+     quantified functions (oracles): the statements hold whatever they return.
+   * A hypothesis appears only where the Python value space or a codec that is a parameter of the model needs it:
+     [bytes_ok] (the argument is a Python bytes object), an enum argument is a member of its enum, a text codec
+     that is a Section variable of the model stays in the family (discharged below where the codec model is merged).
+   * Models with a fuelled loop: CBOR and Monero-Base58 decoders have their fuel bounded by the input length inside
+     the contributors' error lemmas (OutOfFuel unreachable); the master-key loop's termination is probabilistic, its
+     statement is [in_family_or_fuel].
+   * Entry points not listed here (Bech32 / SegWit / CashAddr codecs, Cardano and Monero addresses, wallet-level
+     constructors) are covered by the differential fuzz of harness/props/C14.py only; the evidence lists them.
+
+   PATTERN for a new entry point: no-escape lemma in Lemmas/NoEscape<Area>.v (see the header of Lemmas/NoEscape.v),
+   theorem here by [exact], entry in MODEL_MAP of harness/props/C14.py. *)
+From Coq Require Import NArith ZArith List Bool.
 From BU Require Import Base.Exn Base.Bytes Gen.Consts Model.Base58.
-From BU Require Lemmas.NoEscape.
+From BU Require Model.Codecs Model.IntBytes.
+From BU Require Model.PyText Model.SubstrateScale Model.Bip32Path Model.SubstratePath Model.Coins.
+From BU Require Model.Bip39 Model.Seeds Gen.WlBip39.
+From BU Require Model.MnemWords Model.ChunkMnemonic Model.MoneroMnemonic Model.AlgorandMnemonic Model.ElectrumV1Mnemonic
+                Model.ElectrumV2Mnemonic Gen.MnemConsts Gen.MnemLangs Gen.WlMnem_Ev1.
+From BU Require Model.Bip32Data Model.Bip32Ser Model.Slip32 Model.WifCodec Model.Bip38 Gen.SerbipConsts.
+From BU Require Model.Ed25519Lib Model.EccAdapter Gen.Ecc.
+From BU Require Model.Bip32Slip10 Gen.DerivConsts.
+From BU Require Model.AddrUtils Model.AddrB58 Model.AddrText Model.SplToken Model.ElectrumWallet.
+From BU Require Lemmas.NoEscape Lemmas.NoEscapePaths Lemmas.NoEscapeMnem Lemmas.NoEscapeSer Lemmas.NoEscapeEcc
+                Lemmas.NoEscapeDeriv Lemmas.NoEscapeAddr.
 Import ListNotations.
 
+(* ================================================================== 1. text and wire codecs *)
+
+(* Base58Decoder.Decode(str, alphabet) *)
 Theorem b58_decode_no_escape : forall alph s,
   in_family (Base58.decode alph b58_radix s) = true.
 Proof. intros; exact (NoEscape.b58_decode_family _ _ _). Qed.
 Print Assumptions b58_decode_no_escape.
 
+(* Base58Decoder.CheckDecode(str, alphabet) *)
 Theorem b58_check_decode_no_escape : forall alph (sha256 : list N -> list N) s,
   in_family (Base58.check_decode alph b58_radix b58_cklen sha256 s) = true.
 Proof. intros; exact (NoEscape.b58_check_decode_family _ _ _ _ _). Qed.
 Print Assumptions b58_check_decode_no_escape.
+
+(* Base58XmrDecoder.Decode(str) *)
+Theorem xmr_b58_decode_no_escape : forall s, in_family (Codecs.xmr_decode s) = true.
+Proof. exact NoEscape.xmr_decode_family. Qed.
+Print Assumptions xmr_b58_decode_no_escape.
+
+(* BytesUtils.FromHexString(str) *)
+Theorem hex_decode_no_escape : forall s, in_family (IntBytes.from_hex_string s) = true.
+Proof. exact NoEscape.hex_decode_family. Qed.
+Print Assumptions hex_decode_no_escape.
+
+(* IntegerUtils.FromBinaryStr(str) / BytesUtils.FromBinaryStr(str, zero_pad_bit_len) *)
+Theorem int_from_binstr_no_escape : forall s, in_family (IntBytes.int_from_binstr s) = true.
+Proof. exact NoEscape.int_from_binstr_family. Qed.
+Print Assumptions int_from_binstr_no_escape.
+Theorem bytes_from_binstr_no_escape : forall s pad, in_family (IntBytes.bytes_from_binstr s pad) = true.
+Proof. exact NoEscape.bytes_from_binstr_family. Qed.
+Print Assumptions bytes_from_binstr_no_escape.
+
+(* Bech32BaseUtils.ConvertFromBase32 / ConvertToBase32 (the 5 <-> 8 bit regrouping under every Bech32 codec) *)
+Theorem from_base32_no_escape : forall l, in_family (Codecs.from_base32 l) = true.
+Proof. exact NoEscape.from_base32_family. Qed.
+Print Assumptions from_base32_no_escape.
+Theorem to_base32_no_escape : forall l, in_family (Codecs.to_base32 l) = true.
+Proof. exact NoEscape.to_base32_family. Qed.
+Print Assumptions to_base32_no_escape.
+
+(* Base32Decoder.Decode(str, custom_alphabet) *)
+Theorem b32_decode_no_escape : forall s custom, in_family (Codecs.b32_decode s custom) = true.
+Proof. exact NoEscape.b32_decode_family. Qed.
+Print Assumptions b32_decode_no_escape.
+
+(* SS58Decoder.Decode(str) *)
+Theorem ss58_decode_no_escape : forall (blake2b512 : list N -> list N) s,
+  in_family (Codecs.ss58_decode blake2b512 s) = true.
+Proof. exact NoEscape.ss58_decode_family. Qed.
+Print Assumptions ss58_decode_no_escape.
+
+(* CborIndefiniteLenArrayDecoder.Decode(bytes) *)
+Theorem cbor_decode_no_escape : forall enc, in_family (Codecs.cbor_decode enc) = true.
+Proof. exact NoEscape.cbor_decode_family. Qed.
+Print Assumptions cbor_decode_no_escape.
+
+(* ================================================================== 2. paths *)
+
+(* Bip32PathParser.Parse(str) *)
+Theorem bip32_parse_no_escape : forall s, in_family (Bip32Path.parse s) = true.
+Proof. exact NoEscapePaths.bip32_parse_family. Qed.
+Print Assumptions bip32_parse_no_escape.
+
+(* Bip32KeyIndex(int) / Bip32KeyIndex.FromBytes(bytes) / Bip32Path(list of int) *)
+Theorem bip32_key_index_no_escape : forall z, in_family (Bip32Path.key_index z) = true.
+Proof. exact NoEscapePaths.bip32_key_index_family. Qed.
+Print Assumptions bip32_key_index_no_escape.
+Theorem bip32_key_index_from_bytes_no_escape : forall b, in_family (Bip32Path.key_index_from_bytes b) = true.
+Proof. exact NoEscapePaths.bip32_key_index_from_bytes_family. Qed.
+Print Assumptions bip32_key_index_from_bytes_no_escape.
+Theorem bip32_make_path_no_escape : forall zs ab, in_family (Bip32Path.make_path zs ab) = true.
+Proof. exact NoEscapePaths.bip32_make_path_family. Qed.
+Print Assumptions bip32_make_path_no_escape.
+
+(* Bip32Base.DerivePath(str) / FromSeedAndPath(seed, str): the path layer adds only Bip32PathError / ValueError to
+   what the child-key derivation raises *)
+Theorem bip32_derive_path_str_no_escape : forall (key : Type) (depth : key -> N) (ckd : key -> N -> res key) k s,
+  (forall k i, in_family (ckd k i) = true) ->
+  in_family (Bip32Path.derive_path_str key depth ckd k s) = true.
+Proof. intros key depth ckd k s H. exact (NoEscapePaths.bip32_derive_path_str_family key depth ckd H k s). Qed.
+Print Assumptions bip32_derive_path_str_no_escape.
+
+(* SubstratePathElem(str) / SubstratePathParser.Parse(str) *)
+Theorem sub_make_elem_no_escape : forall e, in_family (SubstratePath.make_elem e) = true.
+Proof. exact NoEscapePaths.sub_make_elem_family. Qed.
+Print Assumptions sub_make_elem_no_escape.
+Theorem sub_parse_no_escape : forall s, in_family (SubstratePath.parse s) = true.
+Proof. exact NoEscapePaths.sub_parse_family. Qed.
+Print Assumptions sub_parse_no_escape.
+
+(* SubstratePathElem(str).ChainCode(): every junction text, of any length (the int.to_bytes calls of the SCALE
+   compact-length encoder are shown never to overflow) *)
+Theorem sub_chain_code_no_escape : forall (blake2b_256 : list N -> list N) body,
+  in_family (SubstratePath.chain_code blake2b_256 body) = true.
+Proof. exact NoEscapePaths.sub_chain_code_family. Qed.
+Print Assumptions sub_chain_code_no_escape.
+
+(* SubstrateScaleCUintEncoder.Encode(int >= 0) / SubstrateScaleBytesEncoder.Encode(str) *)
+Theorem scale_cuint_encode_no_escape : forall v, in_family (SubstrateScale.cuint_encode v) = true.
+Proof. exact NoEscapePaths.cuint_encode_family. Qed.
+Print Assumptions scale_cuint_encode_no_escape.
+Theorem scale_bytes_encode_str_no_escape : forall s, in_family (SubstrateScale.bytes_encode_str s) = true.
+Proof. exact NoEscapePaths.bytes_encode_str_family. Qed.
+Print Assumptions scale_bytes_encode_str_no_escape.
+
+(* Substrate.DerivePath(str) / Substrate.FromSeedAndPath(seed, str), arbitrary sr25519 oracles *)
+Theorem sub_derive_path_str_no_escape : forall (blake : list N -> list N)
+    (hard soft : list N -> list N -> list N -> list N * list N) (softpub : list N -> list N -> list N) k s,
+  in_family (SubstratePath.derive_path_str blake hard soft softpub k s) = true.
+Proof. exact NoEscapePaths.sub_derive_path_str_family. Qed.
+Print Assumptions sub_derive_path_str_no_escape.
+
+(* the coin tables' default-path parser (strict ASCII sub-grammar, Model/Coins.v) *)
+Theorem coins_parse_path_no_escape : forall s, in_family (Coins.parse_path s) = true.
+Proof. exact NoEscapePaths.coins_parse_path_family. Qed.
+Print Assumptions coins_parse_path_no_escape.
+
+(* ================================================================== 3. BIP-39 and the seed generators *)
+(* lang : None = automatic detection, Some wl = the word list of a Bip39Languages member; arbitrary lists allowed *)
+
+(* Bip39MnemonicDecoder(lang).Decode(str | Bip39Mnemonic) and Bip39MnemonicValidator.Validate *)
+Theorem bip39_decode_no_escape : forall (sha256 : list N -> list N) langs lang ws,
+  in_family (Bip39.decode sha256 langs lang ws) = true.
+Proof. exact NoEscapeMnem.bip39_decode_family. Qed.
+Print Assumptions bip39_decode_no_escape.
+Theorem bip39_decode_str_no_escape : forall (sha256 nfkd lower : list N -> list N) langs lang s,
+  in_family (Bip39.decode_str sha256 nfkd lower langs lang s) = true.
+Proof. exact NoEscapeMnem.bip39_decode_str_family. Qed.
+Print Assumptions bip39_decode_str_no_escape.
+
+(* Bip39MnemonicDecoder(lang).DecodeWithChecksum(str) *)
+Theorem bip39_decode_with_checksum_str_no_escape : forall (sha256 nfkd lower : list N -> list N) langs lang s,
+  in_family (Bip39.decode_with_checksum_str sha256 nfkd lower langs lang s) = true.
+Proof. exact NoEscapeMnem.bip39_decode_ck_str_family. Qed.
+Print Assumptions bip39_decode_with_checksum_str_no_escape.
+
+(* Bip39MnemonicValidator(lang).IsValid(str) *)
+Theorem bip39_is_valid_str_no_escape : forall (sha256 nfkd lower : list N -> list N) langs lang s,
+  in_family (Bip39.is_valid_str sha256 nfkd lower langs lang s) = true.
+Proof. exact NoEscapeMnem.bip39_is_valid_str_family. Qed.
+Print Assumptions bip39_is_valid_str_no_escape.
+
+(* Bip39SeedGenerator(str, lang).Generate(passphrase) / SubstrateBip39SeedGenerator(str, lang).Generate(passphrase) *)
+Theorem bip39_seed_str_no_escape : forall (sha256 nfkd lower : list N -> list N) langs pbkdf2 lang s pass,
+  in_family (Seeds.bip39_seed_str sha256 nfkd lower pbkdf2 langs lang s pass) = true.
+Proof. exact NoEscapeMnem.bip39_seed_str_family. Qed.
+Print Assumptions bip39_seed_str_no_escape.
+Theorem substrate_seed_str_no_escape : forall (sha256 nfkd lower : list N -> list N) langs pbkdf2 lang s pass,
+  in_family (Seeds.substrate_seed_str sha256 nfkd lower pbkdf2 langs lang s pass) = true.
+Proof. exact NoEscapeMnem.substrate_seed_str_family. Qed.
+Print Assumptions substrate_seed_str_no_escape.
+
+(* ElectrumV2SeedGenerator(str) / ElectrumV1SeedGenerator(str), relative to the scheme's validator / decoder
+   (their own theorems are in section 4) *)
+Theorem electrum_v2_seed_str_no_escape : forall (nfkd lower : list N -> list N) pbkdf2
+    (ev2_validate : list (list N) -> res unit) s pass,
+  (forall ws, in_family (ev2_validate ws) = true) ->
+  in_family (Seeds.electrum_v2_seed_str nfkd lower pbkdf2 ev2_validate s pass) = true.
+Proof. intros nfkd lower pbkdf2 v s pass. exact (NoEscapeMnem.electrum_v2_seed_str_family nfkd lower pbkdf2 v s pass). Qed.
+Print Assumptions electrum_v2_seed_str_no_escape.
+Theorem electrum_v1_seed_str_no_escape : forall (sha256 nfkd lower : list N -> list N)
+    (ev1_decode : list (list N) -> res (list N)) s,
+  (forall ws, in_family (ev1_decode ws) = true) ->
+  in_family (Seeds.electrum_v1_seed_str sha256 nfkd lower ev1_decode s) = true.
+Proof. intros sha256 nfkd lower d s. exact (NoEscapeMnem.electrum_v1_seed_str_family sha256 nfkd lower d s). Qed.
+Print Assumptions electrum_v1_seed_str_no_escape.
+
+(* ================================================================== 4. Monero / Algorand / Electrum mnemonics *)
+(* the mnemonic is the word list of the Mnemonic object (Mnemonic.FromString = str.split has no error site);
+   [conformant] selects the decoder with (true: today's /repo) or without (false: before fix F8/F9) the overflow check *)
+Import BU.Model.MnemWords BU.Model.ChunkMnemonic BU.Gen.MnemConsts BU.Gen.MnemLangs BU.Gen.WlMnem_Ev1.
+
+(* MoneroMnemonicDecoder(lang).Decode / MoneroMnemonicValidator / MoneroSeedGenerator; lang None = automatic *)
+Theorem monero_decode_no_escape : forall (conformant : bool) lang ws,
+  (forall i, lang = Some i -> exists L, nth_error xmr_langs i = Some L) ->
+  in_family (MoneroMnemonic.decode xmr_langs xmr_word_nums xmr_word_nums_chk
+               (if conformant then words_to_chunk else words_to_chunk_current) lang ws) = true.
+Proof. intros [|] lang ws H; [exact (NoEscapeMnem.xmr_decode_family true lang ws H)|exact (NoEscapeMnem.xmr_decode_family false lang ws H)]. Qed.
+Print Assumptions monero_decode_no_escape.
+
+(* AlgorandMnemonicDecoder.Decode / AlgorandMnemonicValidator / AlgorandSeedGenerator *)
+Theorem algorand_decode_no_escape : forall (sha512_256 : list N -> list N) conformant ws,
+  (forall x, length (sha512_256 x) = 32%nat) -> (forall x, bytes_ok (sha512_256 x)) ->
+  in_family (AlgorandMnemonic.decode algo_wl algo_word_nums algo_cklen algo_word_bits sha512_256 conformant ws) = true.
+Proof. exact NoEscapeMnem.algo_decode_family. Qed.
+Print Assumptions algorand_decode_no_escape.
+
+(* ElectrumV1MnemonicDecoder.Decode / ElectrumV1MnemonicValidator *)
+Theorem electrum_v1_decode_no_escape : forall (conformant : bool) ws,
+  in_family (ElectrumV1Mnemonic.decode wl_ev1 ev1_word_nums
+               (if conformant then words_to_chunk else words_to_chunk_current) ws) = true.
+Proof. intros [|] ws; [exact (NoEscapeMnem.ev1_decode_family true ws)|exact (NoEscapeMnem.ev1_decode_family false ws)]. Qed.
+Print Assumptions electrum_v1_decode_no_escape.
+
+(* ElectrumV2MnemonicDecoder(type, lang).Decode / ElectrumV2MnemonicValidator: type / lang enum members or None *)
+Theorem electrum_v2_decode_no_escape : forall (hmac : list N -> list N -> list N)
+    (bip39_valid ev1_valid : list (list N) -> bool) ty lang ws,
+  (forall t, ty = Some t -> exists p, nth_error ev2_type_prefixes t = Some p) ->
+  (forall l, lang = Some l -> exists wl, nth_error ev2_langs l = Some wl) ->
+  in_family (ElectrumV2Mnemonic.decode b39_langs ev2_langs ev2_word_nums ev2_type_prefixes ev2_hmac_key hmac
+               bip39_valid ev1_valid ty lang ws) = true.
+Proof. exact NoEscapeMnem.ev2_decode_family. Qed.
+Print Assumptions electrum_v2_decode_no_escape.
+
+(* ---- the generators' bytes constructors: a wrong entropy length is a ValueError, a legal one is encoded (the
+        models' IndexError / AssertionError sites are unreachable on a bytes object) ---- *)
+(* Bip39MnemonicGenerator(lang).FromEntropy(bytes) / Bip39MnemonicEncoder(lang).Encode(bytes) *)
+Theorem bip39_encode_no_escape : forall (sha256 nfkd lower : list N -> list N) wl ent,
+  (forall x, length (sha256 x) = 32%nat) /\ (forall x, bytes_ok (sha256 x)) -> In wl WlBip39.bip39_langs -> bytes_ok ent ->
+  in_family (Bip39.encode sha256 nfkd lower wl ent) = true.
+Proof. exact NoEscapeMnem.bip39_encode_family. Qed.
+Print Assumptions bip39_encode_no_escape.
+(* MoneroMnemonicGenerator(lang).FromEntropyNoChecksum / FromEntropyWithChecksum (bytes) *)
+Theorem monero_encode_no_escape : forall i L chk b, nth_error xmr_langs i = Some L -> bytes_ok b ->
+  in_family (MoneroMnemonic.encode xmr_langs xmr_entropy_bit_lens i chk b) = true.
+Proof. exact NoEscapeMnem.xmr_encode_family. Qed.
+Print Assumptions monero_encode_no_escape.
+(* AlgorandMnemonicGenerator.FromEntropy(bytes) *)
+Theorem algorand_encode_no_escape : forall (sha512_256 : list N -> list N) b,
+  (forall x, length (sha512_256 x) = 32%nat) -> (forall x, bytes_ok (sha512_256 x)) -> bytes_ok b ->
+  in_family (AlgorandMnemonic.encode algo_wl algo_cklen algo_entropy_bit_lens algo_word_bits sha512_256 b) = true.
+Proof. exact NoEscapeMnem.algo_encode_family. Qed.
+Print Assumptions algorand_encode_no_escape.
+(* ElectrumV1MnemonicGenerator.FromEntropy(bytes) *)
+Theorem electrum_v1_encode_no_escape : forall b, bytes_ok b ->
+  in_family (ElectrumV1Mnemonic.encode wl_ev1 ev1_entropy_bit_lens b) = true.
+Proof. exact NoEscapeMnem.ev1_encode_family. Qed.
+Print Assumptions electrum_v1_encode_no_escape.
+
+(* ================================================================== 5. extended keys, SLIP-32, WIF, BIP-38 *)
+Import BU.Model.Bip32Data BU.Model.Bip32Ser.
+
+(* Bip32KeyIndex / Bip32ChainCode / Bip32FingerPrint / Bip32KeyNetVersions / Bip32KeyData constructors *)
+Theorem key_data_containers_no_escape : forall d i cc fp pub priv b,
+  in_family (mk_key_data d i cc fp) = true /\ in_family (mk_key_net_ver pub priv) = true /\
+  in_family (index_from_bytes b) = true /\ in_family (mk_chain_code b) = true /\ in_family (mk_fprint b) = true.
+Proof.
+  intros. split; [exact (NoEscapeSer.mk_key_data_family _ _ _ _)|]. split; [exact (NoEscapeSer.mk_key_net_ver_family _ _)|].
+  split; [exact (NoEscapeSer.index_from_bytes_family _)|]. split; [exact (NoEscapeSer.mk_chain_code_family _)|exact (NoEscapeSer.mk_fprint_family _)].
+Qed.
+Print Assumptions key_data_containers_no_escape.
+
+(* Bip32KeyDeserializer.DeserializeKey(str, key_net_ver): ser[4] and key_bytes[0] cannot raise after the length check *)
+Theorem bip32_deserialize_no_escape : forall (sha256 : list N -> list N) s v,
+  in_family (deserialize b58_alph_btc b58_radix b58_cklen sha256 s v) = true.
+Proof. intros. exact (NoEscapeSer.deserialize_family _ _ _ _ _ _). Qed.
+Print Assumptions bip32_deserialize_no_escape.
+
+(* <Bip32 class>.FromExtendedKey(str, key_net_ver) and Bip44/49/84/86/Cip1852.FromExtendedKey on top of it;
+   the class enters through its private-key validity test and public-key parser (oracles) *)
+Theorem bip32_from_extended_no_escape : forall (sha256 : list N -> list N) priv_ok pub_parse s v,
+  in_family (from_extended b58_alph_btc b58_radix b58_cklen sha256 priv_ok pub_parse s v) = true.
+Proof. intros. exact (NoEscapeSer.from_extended_family _ _ _ _ _ _ _ _). Qed.
+Print Assumptions bip32_from_extended_no_escape.
+
+(* <Bip32 class>.FromPrivateKey(bytes, key_data) / FromPublicKey(bytes, key_data) *)
+Theorem bip32_construct_no_escape : forall priv_ok pub_parse is_public key_bytes kd,
+  in_family (construct priv_ok pub_parse is_public key_bytes kd) = true.
+Proof. exact NoEscapeSer.construct_family. Qed.
+Print Assumptions bip32_construct_no_escape.
+
+(* Slip32KeyDeserializer.DeserializeKey(str, key_net_ver) over any Bech32 decoder that stays in the family *)
+Theorem slip32_deserialize_no_escape : forall (bech_dec : list N -> list N -> res (list N)) s v,
+  (forall hrp s, in_family (bech_dec hrp s) = true) ->
+  in_family (Slip32.slip32_deserialize bech_dec s v) = true.
+Proof. intros d s v H. exact (NoEscapeSer.slip32_deserialize_family d H s v). Qed.
+Print Assumptions slip32_deserialize_no_escape.
+
+(* WifDecoder.Decode(str, net_ver).
+   FULL-STRENGTH statement, FALSE of the (faithful) model and of the code -- finding C14-WIF-NETVER:
+     forall s net_ver, in_family (wif_decode ... s net_ver) = true.
+   ord(net_ver) raises TypeError whenever net_ver is not exactly one byte and the Base58Check payload is non-empty. *)
+Theorem wif_decode_no_escape_partial : forall (sha256 : list N -> list N) s nv,
+  in_family (WifCodec.wif_decode b58_alph_btc b58_radix b58_cklen sha256 s [nv]) = true.
+Proof. intros. exact (NoEscapeSer.wif_decode_family _ _ _ _ _ _). Qed.
+Print Assumptions wif_decode_no_escape_partial.
+Theorem wif_decode_net_ver_escapes : forall (sha256 : list N -> list N) s nv b0 rest,
+  check_decode b58_alph_btc b58_radix b58_cklen sha256 s = Ok (b0 :: rest) -> length nv <> 1%nat ->
+  WifCodec.wif_decode b58_alph_btc b58_radix b58_cklen sha256 s nv = Err TypeError.
+Proof. intros sha256 s nv b0 rest. exact (NoEscapeSer.wif_decode_bad_net_ver _ _ _ sha256 s nv b0 rest). Qed.
+Print Assumptions wif_decode_net_ver_escapes.
+Theorem wif_decode_no_escape_refuted : exists (sha256 : list N -> list N) s nv,
+  in_family (WifCodec.wif_decode b58_alph_btc b58_radix b58_cklen sha256 s nv) = false.
+Proof. exact NoEscapeSer.wif_decode_net_ver_refuted. Qed.
+Print Assumptions wif_decode_no_escape_refuted.
+
+(* Bip38Decrypter.DecryptNoEc(str, passphrase) *)
+Theorem bip38_noec_decrypt_no_escape : forall (sha256 nfc : list N -> list N) (utf8 : list N -> res (list N))
+    scrypt aes_dec (G : Type) (base : G) smul p2pkh enc pass,
+  (forall t, in_family (utf8 t) = true) ->
+  in_family (Bip38.noec_decrypt b58_alph_btc b58_radix b58_cklen sha256 nfc utf8 scrypt aes_dec G base smul p2pkh enc pass) = true.
+Proof.
+  intros sha256 nfc utf8 scrypt aes_dec G base smul p2pkh enc pass H.
+  exact (NoEscapeSer.noec_decrypt_family _ _ _ sha256 nfc utf8 scrypt aes_dec G base smul p2pkh H enc pass).
+Qed.
+Print Assumptions bip38_noec_decrypt_no_escape.
+
+(* Bip38Decrypter.DecryptEc(str, passphrase): the int.to_bytes(32) of (passfactor * factorb) mod n cannot overflow *)
+Theorem bip38_ec_decrypt_no_escape : forall (sha256 nfc : list N -> list N) (utf8 : list N -> res (list N))
+    scrypt aes_dec (G : Type) (base : G) smul ser_c p2pkh enc pass,
+  (forall t, in_family (utf8 t) = true) ->
+  in_family (Bip38.ec_decrypt b58_alph_btc b58_radix b58_cklen sha256 nfc utf8 scrypt aes_dec G base smul ser_c p2pkh enc pass) = true.
+Proof.
+  intros sha256 nfc utf8 scrypt aes_dec G base smul ser_c p2pkh enc pass H.
+  exact (NoEscapeSer.ec_decrypt_family _ _ _ sha256 nfc utf8 scrypt aes_dec G base smul ser_c p2pkh H enc pass).
+Qed.
+Print Assumptions bip38_ec_decrypt_no_escape.
+
+(* Bip38EcKeysGenerator.GeneratePrivateKey(intermediate passphrase str, pub_key_mode) *)
+Theorem bip38_gen_private_key_no_escape : forall (sha256 : list N -> list N) scrypt aes_enc (G : Type) smul ser_c deser p2pkh
+    ip c seedb,
+  in_family (Bip38.gen_private_key b58_alph_btc b58_radix b58_cklen sha256 scrypt aes_enc G smul ser_c deser p2pkh ip c seedb) = true.
+Proof. intros. exact (NoEscapeSer.gen_private_key_family _ _ _ _ _ _ _ _ _ _ _ _ _ _). Qed.
+Print Assumptions bip38_gen_private_key_no_escape.
+
+(* ================================================================== 6. EC key layer: byte constructors *)
+Import BU.Model.EccAdapter.
+
+(* Secp256k1PrivateKey / Nist256p1PrivateKey .FromBytes (both back-ends) *)
+Theorem ecdsa_priv_from_bytes_no_escape : forall priv_len acc be k,
+  in_family (Weier.priv_from_bytes priv_len acc be k) = true.
+Proof. exact NoEscapeEcc.w_priv_from_bytes_family. Qed.
+Print Assumptions ecdsa_priv_from_bytes_no_escape.
+
+(* Secp256k1PublicKey / Nist256p1PublicKey .FromBytes and Secp256k1Point / Nist256p1Point .FromBytes;
+   cur = false: the validating model, cur = true: today's python-ecdsa behaviour (F17) *)
+Theorem ecdsa_pub_from_bytes_no_escape : forall p a b cl pcl pul pre lift be bs,
+  in_family (Weier.pub_from_bytes p a b cl pcl pul pre lift be bs) = true.
+Proof. exact NoEscapeEcc.w_pub_from_bytes_family. Qed.
+Print Assumptions ecdsa_pub_from_bytes_no_escape.
+Theorem ecdsa_point_from_bytes_no_escape : forall p a b cl pcl pul pre lift cur be bs,
+  in_family (Weier.point_from_bytes p a b cl pcl pul pre lift cur be bs) = true.
+Proof. exact NoEscapeEcc.w_point_from_bytes_family. Qed.
+Print Assumptions ecdsa_point_from_bytes_no_escape.
+
+(* ed25519_lib.point_decode(bytes) *)
+Theorem ed_point_decode_no_escape : forall q d clen clamp sb xrec b,
+  in_family (Ed25519Lib.point_decode q d clen clamp sb xrec b) = true.
+Proof. exact NoEscapeEcc.ed_point_decode_family. Qed.
+Print Assumptions ed_point_decode_no_escape.
+
+(* Ed25519 / Ed25519Blake2b / Ed25519Kholaw / Ed25519Monero PrivateKey.FromBytes and PublicKey.FromBytes *)
+Theorem ed_priv_from_bytes_no_escape : forall l pl nacl b2b cur k bs,
+  in_family (Edw.priv_from_bytes l pl nacl b2b cur k bs) = true.
+Proof. exact NoEscapeEcc.ed_priv_from_bytes_family. Qed.
+Print Assumptions ed_priv_from_bytes_no_escape.
+Theorem ed_pub_from_bytes_no_escape : forall q d clen clamp sb pre pl xrec vk cur k bs,
+  in_family (Edw.pub_from_bytes q d clen clamp sb pre pl xrec vk cur k bs) = true.
+Proof. exact NoEscapeEcc.ed_pub_from_bytes_family. Qed.
+Print Assumptions ed_pub_from_bytes_no_escape.
+
+(* Ed25519Point.FromBytes (and subclasses) at the library's coordinate length: the re-encoding of a 64-byte
+   coordinate form (int.to_bytes -> OverflowError, y_bytes[-1] -> IndexError) cannot fail on a bytes object *)
+Theorem ed_point_from_bytes_no_escape : forall xrec cur bs, bytes_ok bs ->
+  in_family (Edw.point_from_bytes Ecc.ed_q Ecc.ed_d Ecc.ed_coord_len Ecc.ed_clamp Ecc.ed_sign_bit Ecc.ed_sign_byte
+               xrec cur bs) = true.
+Proof. intros xrec cur bs H. exact (NoEscapeEcc.ed_point_from_bytes_family _ _ _ _ _ _ xrec cur bs eq_refl H). Qed.
+Print Assumptions ed_point_from_bytes_no_escape.
+
+(* <curve>PublicKey.IsValidBytes / PrivateKey.IsValidBytes: never raise when the constructor stays in the family *)
+Theorem is_valid_bytes_no_escape : forall (A : Type) (r : res A), in_family r = true -> in_family (is_valid r) = true.
+Proof. exact (@NoEscapeEcc.is_valid_total). Qed.
+Print Assumptions is_valid_bytes_no_escape.
+
+(* Sr25519PrivateKey / Sr25519PublicKey .FromBytes *)
+Theorem sr_from_bytes_no_escape : forall pl bs,
+  in_family (Sr.sr_priv_from_bytes pl bs) = true /\ in_family (Sr.sr_pub_from_bytes pl bs) = true.
+Proof. intros; split; [exact (NoEscapeEcc.sr_priv_from_bytes_family _ _)|exact (NoEscapeEcc.sr_pub_from_bytes_family _ _)]. Qed.
+Print Assumptions sr_from_bytes_no_escape.
+
+(* ================================================================== 7. master key from a seed *)
+(* <Bip32Slip10 class>.FromSeed(bytes) (and Bip44/49/84/86.FromSeed on top): a value, the ValueError of a seed
+   shorter than 16 bytes, or the model's OutOfFuel (the rehash loop's termination is not a theorem) *)
+Theorem bip32_from_seed_no_escape : forall (hmac512 : list N -> list N -> list N) D fuel seed,
+  NoEscapeDeriv.in_family_or_fuel (Bip32Slip10.from_seed hmac512 D fuel seed) = true.
+Proof. exact NoEscapeDeriv.from_seed_family_or_fuel. Qed.
+Print Assumptions bip32_from_seed_no_escape.
+Theorem bip32_from_seed_errors : forall (hmac512 : list N -> list N -> list N) D fuel seed e,
+  Bip32Slip10.from_seed hmac512 D fuel seed = Err e -> e = ValueError \/ e = OutOfFuel.
+Proof. exact NoEscapeDeriv.from_seed_errors. Qed.
+Print Assumptions bip32_from_seed_errors.
+Theorem bip32_from_seed_short : forall (hmac512 : list N -> list N -> list N) D fuel seed,
+  (length seed < DerivConsts.slip10_seed_min_len)%nat -> Bip32Slip10.from_seed hmac512 D fuel seed = Err ValueError.
+Proof. exact NoEscapeDeriv.from_seed_short. Qed.
+Print Assumptions bip32_from_seed_short.
+Example bip32_from_seed_short_ex : (length (repeat 0%N 15) < DerivConsts.slip10_seed_min_len)%nat.
+Proof. vm_compute. repeat constructor. Qed.
+Print Assumptions bip32_from_seed_short_ex.
+
+(* <Bip32Slip10 class>.FromSeedAndPath(seed, path) / DerivePath / ChildKey, relative to the curve's key constructors
+   and CKD functions (which come from the EC key layer and HMAC; the SLIP-0010 retry loops are fuelled) *)
+Theorem bip32_from_seed_and_path_no_escape : forall (hmac512 : list N -> list N -> list N) (hash160 : list N -> list N)
+    (D : Bip32Slip10.deriv_ops) fuel seed is_abs p,
+  (forall b, NoEscapeDeriv.in_family_or_fuel (Bip32Slip10.d_priv_of_bytes D b) = true) ->
+  (forall P, NoEscapeDeriv.in_family_or_fuel (Bip32Slip10.d_pub_check D P) = true) ->
+  (forall fuel k P c i, NoEscapeDeriv.in_family_or_fuel (Bip32Slip10.d_ckd_priv D fuel k P c i) = true) ->
+  (forall fuel P c i, NoEscapeDeriv.in_family_or_fuel (Bip32Slip10.d_ckd_pub D fuel P c i) = true) ->
+  NoEscapeDeriv.in_family_or_fuel (Bip32Slip10.from_seed_and_path hmac512 hash160 D fuel seed is_abs p) = true.
+Proof. intros hmac512 hash160 D fuel seed is_abs p H1 H2 H3 H4. exact (NoEscapeDeriv.from_seed_and_path_fof hmac512 hash160 D H1 H2 H3 H4 fuel seed is_abs p). Qed.
+Print Assumptions bip32_from_seed_and_path_no_escape.
+
+(* ================================================================== 8. address decoders *)
+Import BU.Model.AddrB58 BU.Model.AddrText.
+
+(* ---- Base58 / Base58Check / hex pipelines (Model/AddrB58.v): unconditional ---- *)
+(* P2PKHAddrDecoder (BTC, LTC, DOGE, DASH, ZEC, BCH legacy, ...) / P2SHAddrDecoder / XrpAddrDecoder / XtzAddrDecoder *)
+Theorem p2pkh_decode_no_escape : forall (sha256 : list N -> list N) alph nv addr,
+  in_family (p2pkh_decode sha256 alph nv addr) = true.
+Proof. exact NoEscapeAddr.p2pkh_decode_family. Qed.
+Print Assumptions p2pkh_decode_no_escape.
+Theorem p2sh_decode_no_escape : forall (sha256 : list N -> list N) nv addr, in_family (p2sh_decode sha256 nv addr) = true.
+Proof. exact NoEscapeAddr.p2sh_decode_family. Qed.
+Print Assumptions p2sh_decode_no_escape.
+Theorem xrp_decode_no_escape : forall (sha256 : list N -> list N) addr, in_family (xrp_decode sha256 addr) = true.
+Proof. exact NoEscapeAddr.xrp_decode_family. Qed.
+Print Assumptions xrp_decode_no_escape.
+Theorem xtz_decode_no_escape : forall (sha256 : list N -> list N) prefix addr, in_family (xtz_decode sha256 prefix addr) = true.
+Proof. exact NoEscapeAddr.xtz_decode_family. Qed.
+Print Assumptions xtz_decode_no_escape.
+(* NeoLegacyAddrDecoder / NeoN3AddrDecoder: the model's IndexError branch (dec[0]) is unreachable *)
+Theorem neo_decode_no_escape : forall (sha256 : list N -> list N) ver addr, in_family (neo_decode sha256 ver addr) = true.
+Proof. exact NoEscapeAddr.neo_decode_family. Qed.
+Print Assumptions neo_decode_no_escape.
+(* EosAddrDecoder / ErgoP2PKHAddrDecoder / SolAddrDecoder *)
+Theorem eos_decode_no_escape : forall (ripemd160 : list N -> list N) valid_pub addr,
+  in_family (eos_decode ripemd160 valid_pub addr) = true.
+Proof. exact NoEscapeAddr.eos_decode_family. Qed.
+Print Assumptions eos_decode_no_escape.
+Theorem ergo_decode_no_escape : forall (blake2b : nat -> list N -> list N) valid_pub net addr,
+  in_family (ergo_decode blake2b valid_pub net addr) = true.
+Proof. exact NoEscapeAddr.ergo_decode_family. Qed.
+Print Assumptions ergo_decode_no_escape.
+Theorem sol_decode_no_escape : forall valid_pub addr, in_family (sol_decode valid_pub addr) = true.
+Proof. exact NoEscapeAddr.sol_decode_family. Qed.
+Print Assumptions sol_decode_no_escape.
+(* EthAddrDecoder (+ Okex/One/Inj hex layer) / TrxAddrDecoder / IcxAddrDecoder / NearAddrDecoder / SuiAddrDecoder /
+   AptosAddrDecoder *)
+Theorem eth_decode_no_escape : forall (keccak256 : list N -> list N) skip addr,
+  in_family (eth_decode keccak256 skip addr) = true.
+Proof. exact NoEscapeAddr.eth_decode_family. Qed.
+Print Assumptions eth_decode_no_escape.
+Theorem trx_decode_no_escape : forall (sha256 keccak256 : list N -> list N) addr,
+  in_family (trx_decode sha256 keccak256 addr) = true.
+Proof. exact NoEscapeAddr.trx_decode_family. Qed.
+Print Assumptions trx_decode_no_escape.
+Theorem icx_decode_no_escape : forall addr, in_family (icx_decode addr) = true.
+Proof. exact NoEscapeAddr.icx_decode_family. Qed.
+Print Assumptions icx_decode_no_escape.
+Theorem near_decode_no_escape : forall valid_pub addr, in_family (near_decode valid_pub addr) = true.
+Proof. exact NoEscapeAddr.near_decode_family. Qed.
+Print Assumptions near_decode_no_escape.
+Theorem sui_decode_no_escape : forall addr, in_family (sui_decode addr) = true.
+Proof. exact NoEscapeAddr.sui_decode_family. Qed.
+Print Assumptions sui_decode_no_escape.
+Theorem aptos_decode_no_escape : forall addr, in_family (aptos_decode addr) = true.
+Proof. exact NoEscapeAddr.aptos_decode_family. Qed.
+Print Assumptions aptos_decode_no_escape.
+
+(* ---- Base32 / SS58 pipelines (Model/AddrText.v) instantiated with the merged codec models: unconditional ---- *)
+Notation b32 := NoEscapeAddr.b32_dec_model.
+(* AlgoAddrDecoder / XlmAddrDecoder (payload[0] unreachable IndexError) / FilSecp256k1AddrDecoder / NanoAddrDecoder /
+   NimAddrDecoder *)
+Theorem algo_addr_decode_no_escape : forall (sha512_256 : list N -> list N) valid_pub addr,
+  in_family (algo_decode sha512_256 valid_pub b32 addr) = true.
+Proof. exact NoEscapeAddr.algo_addr_decode_b32. Qed.
+Print Assumptions algo_addr_decode_no_escape.
+Theorem xlm_decode_no_escape : forall valid_pub (crc16 : list N -> list N) ty addr,
+  in_family (xlm_decode valid_pub crc16 b32 ty addr) = true.
+Proof. exact NoEscapeAddr.xlm_decode_b32. Qed.
+Print Assumptions xlm_decode_no_escape.
+Theorem fil_decode_no_escape : forall (blake2b : nat -> list N -> list N) addr, in_family (fil_decode blake2b b32 addr) = true.
+Proof. exact NoEscapeAddr.fil_decode_b32. Qed.
+Print Assumptions fil_decode_no_escape.
+Theorem nano_decode_no_escape : forall (blake2b : nat -> list N -> list N) valid_pub addr,
+  in_family (nano_decode blake2b valid_pub b32 addr) = true.
+Proof. exact NoEscapeAddr.nano_decode_b32. Qed.
+Print Assumptions nano_decode_no_escape.
+Theorem nim_decode_no_escape : forall addr, in_family (nim_decode b32 addr) = true.
+Proof. exact NoEscapeAddr.nim_decode_b32. Qed.
+Print Assumptions nim_decode_no_escape.
+(* SubstrateEd25519AddrDecoder / SubstrateSr25519AddrDecoder *)
+Theorem substrate_addr_decode_no_escape : forall (blake2b512 : list N -> list N) valid_pub curve fmt addr,
+  in_family (substrate_decode valid_pub (NoEscapeAddr.ss58_dec_model blake2b512) curve fmt addr) = true.
+Proof. exact NoEscapeAddr.substrate_decode_ss58. Qed.
+Print Assumptions substrate_addr_decode_no_escape.
+
+(* ---- Bech32 / SegWit / CashAddr pipelines: relative to the codec decoder (model not merged yet; instantiate as in
+        Lemmas/NoEscapeAddr.v part 3 when it is) ---- *)
+(* AtomAddrDecoder family, AvaxP/XChainAddrDecoder, EgldAddrDecoder, InjAddrDecoder, OkexAddrDecoder / OneAddrDecoder,
+   ZilAddrDecoder *)
+Theorem bech32_addr_decoders_no_escape : forall (keccak256 : list N -> list N) valid_pub
+    (bech32_dec : list N -> list N -> res (list N)),
+  (forall hrp s, in_family (bech32_dec hrp s) = true) ->
+  (forall hrp addr, in_family (atom_decode bech32_dec hrp addr) = true) /\
+  (forall prefix hrp addr, in_family (avax_decode bech32_dec prefix hrp addr) = true) /\
+  (forall addr, in_family (egld_decode valid_pub bech32_dec addr) = true) /\
+  (forall addr, in_family (inj_decode bech32_dec addr) = true) /\
+  (forall hrp addr, in_family (ethb32_decode keccak256 bech32_dec hrp addr) = true) /\
+  (forall addr, in_family (zil_decode bech32_dec addr) = true).
+Proof.
+  intros keccak256 valid_pub d H.
+  split; [exact (NoEscapeAddr.atom_decode_family d H)|]. split; [exact (NoEscapeAddr.avax_decode_family d H)|].
+  split; [exact (NoEscapeAddr.egld_decode_family valid_pub d H)|]. split; [exact (NoEscapeAddr.inj_decode_family d H)|].
+  split; [exact (NoEscapeAddr.ethb32_decode_family keccak256 d H)|exact (NoEscapeAddr.zil_decode_family d H)].
+Qed.
+Print Assumptions bech32_addr_decoders_no_escape.
+(* P2WPKHAddrDecoder / P2TRAddrDecoder *)
+Theorem segwit_addr_decoders_no_escape : forall (segwit_dec : list N -> list N -> res (N * list N)),
+  (forall hrp s, in_family (segwit_dec hrp s) = true) ->
+  (forall hrp addr, in_family (p2wpkh_decode segwit_dec hrp addr) = true) /\
+  (forall hrp addr, in_family (p2tr_decode segwit_dec hrp addr) = true).
+Proof. intros d H. split; [exact (NoEscapeAddr.p2wpkh_decode_family d H)|exact (NoEscapeAddr.p2tr_decode_family d H)]. Qed.
+Print Assumptions segwit_addr_decoders_no_escape.
+(* BchP2PKHAddrDecoder / BchP2SHAddrDecoder *)
+Theorem cashaddr_addr_decoders_no_escape : forall (cash_dec : list N -> list N -> res (list N * list N)),
+  (forall hrp s, in_family (cash_dec hrp s) = true) ->
+  forall hrp nv addr, in_family (bch_decode cash_dec hrp nv addr) = true.
+Proof. intros d H. exact (NoEscapeAddr.bch_decode_family d H). Qed.
+Print Assumptions cashaddr_addr_decoders_no_escape.
+
+(* the hypotheses above are satisfiable on a non-trivial codec: one that rejects everything with its checksum error *)
+Example codec_hypothesis_ex :
+  (forall hrp s : list N, in_family (@Err (list N) (LibError Bech32ChecksumError)) = true) /\
+  atom_decode (fun _ _ => Err (LibError Bech32ChecksumError)) [99] [120] = Err ValueError.
+Proof. split; [reflexivity|vm_compute; reflexivity]. Qed.
+Print Assumptions codec_hypothesis_ex.
+
+(* ================================================================== 9. wallets built on the above *)
+(* SplToken.GetAssociatedTokenAddress(wallet str, mint str) over the SolAddrDecoder model *)
+Theorem spl_get_ata_no_escape : forall (sha256 : list N -> list N) on_curve valid_pub wallet mint,
+  in_family (SplToken.get_ata b58_alph_btc b58_radix sha256 on_curve (sol_decode valid_pub) wallet mint) = true.
+Proof. exact NoEscapeAddr.get_ata_family. Qed.
+Print Assumptions spl_get_ata_no_escape.
+
+(* ElectrumV1.FromPrivateKey(bytes) / ElectrumV1.FromPublicKey(bytes) *)
+Theorem electrum_v1_constructors_no_escape : forall (G : Type) deser b,
+  in_family (ElectrumWallet.v1_from_private_key G b) = true /\ in_family (ElectrumWallet.v1_from_public_key G deser b) = true.
+Proof. intros; split; [exact (NoEscapeAddr.electrum_v1_from_private_key_family G b)|exact (NoEscapeAddr.electrum_v1_from_public_key_family G deser b)]. Qed.
+Print Assumptions electrum_v1_constructors_no_escape.
